@@ -12,7 +12,8 @@ META = {
                    "SequenceData.lindblad_ops included; krylov_exp is called with is_hermitian=False, the "
                    "stepper's tolerance and state, generator −i·dt·(L ρ). LINDBLAD-form: i·L(ρ) = H_eff ρ − "
                    "(H_eff ρ)† + i·Σ L ρ L† with H_eff carrying −(i/2) Σ L†L and the same operator/qubit on both "
-                   "sides of the jump term. DEVICE: the CPU and batched arms agree.",
+                   "sides of the jump term. DEVICE: the CPU and batched arms agree."
+                   "h_eff covers every qubit (an idle atom keeps its −i/2 ΣL†L term), jump term over every qubit and operator.",
     "not_decided": "accuracy of the Lindblad evolution; Hermiticity, unit trace and positivity of the result",
     "trusted_base": ["CPython ast", "sa.interp", "sa.algebra"],
     "assumptions": [],
